@@ -26,6 +26,7 @@ def plan(tier, seed):
     specs = shards("docs", 3000 if q else 150000, 250 if q else 4000, seed)
     specs += shards("streams", 500 if q else 20000, 50 if q else 1000, seed)
     specs += shards("corpus", 1, 1, seed)
+    specs += [{"family": "thresholds", "seed": seed, "n": 1, "part": k, "parts": 8, "tier": tier} for k in range(8)]
     return specs
 
 
@@ -171,6 +172,10 @@ def run_shard(spec, M):
             check_document(R.text, M, {"kind": "text", "text": R.text})
             if i % 499 == 0:
                 M.sample({"text": short(R.text, 300)})
+    elif fam == "thresholds":
+        from .. import thresholds
+        for dim, n in thresholds.cases(spec["tier"], spec["part"], spec["parts"]):
+            check_document(thresholds.build(dim, n).text, M, {"kind": "text", "text": "threshold document %s n=%d" % (dim, n), "dim": dim, "n": n})
     elif fam == "streams":
         for i in range(spec["start"], spec["start"] + spec["n"]):
             r = rng(seed, ID, "stream", i)
@@ -187,7 +192,10 @@ def run_shard(spec, M):
 
 
 def replay(case, M):
-    if case["kind"] == "stream":
+    if case.get("dim"):
+        from .. import thresholds
+        check_document(thresholds.build(case["dim"], case["n"]).text, M, case)
+    elif case["kind"] == "stream":
         check_stream(case["sources"], M, case)
     else:
         check_document(case["text"], M, case)
